@@ -532,7 +532,11 @@ pub fn run(args: &RunArgs) -> i32 {
                         // a block string whose layout does not round-trip still parses; only quotes / backslashes
                         // / triple quotes can make the printed text unparsable
                         let string_can_break_parsing = ["quoted-string-with-quote-or-backslash", "block-string-with-triple-quote", "block-string-ending-in-quote-or-backslash"].contains(&c);
-                        let c = if !string_can_break_parsing && memberless { "union-without-members" } else { c };
+                        // attribution by experiment: if the printed text parses once the dangling ` =` of member-less
+                        // unions is taken away, that (known) defect is the cause, whatever strings the document has
+                        let without_dangling: String = printed.lines().map(|l| l.strip_suffix(" =").unwrap_or(l)).collect::<Vec<_>>().join("\n");
+                        let dangling_is_the_cause = memberless && parse_type_system_document(&without_dangling).is_ok();
+                        let c = if dangling_is_the_cause || (!string_can_break_parsing && memberless) { "union-without-members" } else { c };
                         (c.to_string(), format!("printed text does not parse: {} :: {printed}", e.into_message()))
                     })?;
                     let m2 = conv::ts_ext_doc(&a2);
@@ -543,6 +547,8 @@ pub fn run(args: &RunArgs) -> i32 {
                         let cause = match bad {
                             Some(x) if s1.len() == s2.len() && m1.defs.len() == m2.defs.len() => format!("string:{}", string_class(x).unwrap_or(if x.contains('\n') { "block-string-reindented-when-nested" } else { "no-string-cause" })),
                             _ if memberless => "union-without-members".to_string(),
+                            // an unescaped quote re-tokenises the text: the number of strings changes, not just one of them
+                            _ if primary_class(s1.iter().copied()) == "quoted-string-with-quote-or-backslash" && s1.len() != s2.len() => "string:quoted-string-with-quote-or-backslash".to_string(),
                             _ => short_path(&path),
                         };
                         Ok(Some((format!("{cause}\u{1}{path}"), printed)))
